@@ -2,6 +2,9 @@
 use libfuzzer_sys::fuzz_target;
 use std::sync::OnceLock;
 
+#[global_allocator]
+static GLOBAL: vcheck::PoisonAlloc = vcheck::PoisonAlloc;
+
 static TARGET: OnceLock<SendTarget> = OnceLock::new();
 struct SendTarget(vcheck::fuzz::Target);
 // libFuzzer drives the target from one thread; the wrapper only satisfies OnceLock's bounds
